@@ -503,6 +503,71 @@ def run_pieces(case):
             f'leaf {j}')
 
 
+# ------------------------------------------------------- float64 (x64) means
+
+def child_mean_x64(cases):
+  """Runs in a child interpreter started with JAX_ENABLE_X64=1."""
+  assert jax.config.jax_enable_x64
+  import fractions
+  F = fractions.Fraction
+  for ci, case in enumerate(cases):
+    ws = [float(w) for w in case['weights']]
+    vals = [np.asarray(v, np.float64) / 10.0 for v in case['values']]
+    n = len(ws)
+    total = sum(F(w) for w in ws)
+    exact = [sum(F(w) * F(float(v[j])) for w, v in zip(ws, vals)) / total
+             for j in range(len(vals[0]))]
+    ref = np.asarray([float(e) for e in exact], np.float64)
+    s = np.asarray([float(sum(abs(F(w) * F(float(v[j]))) for w, v in zip(ws, vals)) / total)
+                    for j in range(len(vals[0]))])
+    tol = (2 * n + 8) * 2.0 ** -53 * s + 1e-300
+    trees = [{'a': jnp.asarray(v), 'b': {'c': jnp.asarray(v[:1])}} for v in vals]
+    agg = fedjax.aggregators.mean_aggregator()
+    pieces = tree_util.tree_zeros_like(trees[0])
+    for t, w in zip(trees, ws):
+      pieces = tree_util.tree_add(pieces, tree_util.tree_weight(t, w))
+    outs = {
+        'tree_mean(list)': tree_util.tree_mean(list(zip(trees, ws))),
+        'tree_mean(generator)': tree_util.tree_mean((t, w) for t, w in zip(trees, ws)),
+        'mean_aggregator': agg.apply([(b'c%d' % i, t, w) for i, (t, w) in
+                                      enumerate(zip(trees, ws))], agg.init())[0],
+        'pieces': tree_util.tree_inverse_weight(pieces, sum(ws)),
+    }
+    for path, out in outs.items():
+      a = np.asarray(out['a'])
+      if a.dtype != np.float64:
+        return {'clause': 'x64:mean_of_float64_leaves_is_not_float64',
+                'message': f'case {ci} {path}: {a.dtype}'}
+      err = np.abs(a.astype(np.float64) - ref)
+      if not bool((err <= tol).all()):
+        return {'clause': 'x64:mean_of_float64_leaves_not_to_float64_accuracy',
+                'message': f'case {ci} {path}: got {a.tolist()} want {ref.tolist()} '
+                           f'(error {err.max():.3e}, tolerance {tol.max():.3e}; weights {ws})'}
+  return {}
+
+
+def run_mean_x64(case):
+  """With jax_enable_x64 the leaves may be float64: the weighted mean is then
+  sum(w p)/sum(w) to float64 accuracy -- nothing on the way (the weights, the
+  products, the running sum, the normaliser) is rounded to float32."""
+  from vf import child
+  child.call('vf.props.c07', 'child_mean_x64', case['cases'], {'JAX_ENABLE_X64': '1'}, 'x64')
+  return []
+
+
+@st.composite
+def mean_x64_case(draw, tier):
+  cases = []
+  for _ in range(8):
+    n = draw(st.sampled_from([1, 2, 3, 4]))
+    size = draw(st.integers(1, 4))
+    cases.append({
+        'weights': [draw(st.sampled_from([0.1, 0.3, 1.0, 2.5, 7.0, 0.001, 3.3, 1e6 + 0.1]))
+                    for _ in range(n)],
+        'values': [[draw(st.integers(-1000, 1000)) for _ in range(size)] for _ in range(n)]})
+  return {'cases': cases}
+
+
 # ------------------------------------------------------------------ sum
 
 def check_sum_values(in_np, out_leaves):
@@ -618,7 +683,13 @@ def run_clip(case):
   u, tiny = (U16, TINY16) if any_f16 else (U32, TINY32)
   k = nelem + 10
 
-  result = tree_util.tree_clip_by_global_norm(tree, bound)
+  # the bound as the caller holds it: a Python float or -- for integral bounds,
+  # when the case says so -- a Python int or a NumPy integer scalar
+  bk = case.get('bound_kind', 'float')
+  bound_arg = bound
+  if bk != 'float' and np.isfinite(bound) and bound == int(bound):
+    bound_arg = {'int': int, 'np_i32': np.int32, 'np_i64': np.int64}[bk](int(bound))
+  result = tree_util.tree_clip_by_global_norm(tree, bound_arg)
   out_leaves, out_def = flat(result)
   require(out_def == treedef, 'clip:structure', f'{out_def} vs {treedef}')
   check_outputs_alive('clip', out_leaves)
@@ -940,8 +1011,14 @@ def clip_case(draw, tier):
     bound = {'abs': 0.0}   # degenerate but valid: everything is clipped to zero
   elif pick == 6:
     bound = {'abs': 'inf'}  # an infinite bound clips nothing
-  return {'tree': spec, 'leaves': leaves, 'bound': bound,
+  case = {'tree': spec, 'leaves': leaves, 'bound': bound,
           'leafkind': draw(st.sampled_from(['jax', 'jax', 'jax', 'numpy']))}
+  if not has_f16 and draw(st.integers(0, 5)) == 0:
+    # an integral bound handed over as an integer (1 .. 2^20)
+    case['bound'] = {'abs': float(draw(st.sampled_from(
+        [1, 3, 1000, 46340, 46341, 65536, 100000, 2 ** 20])))}
+    case['bound_kind'] = draw(st.sampled_from(['int', 'np_i32', 'np_i64']))
+  return case
 
 
 # ------------------------------------------------------------------ labels
@@ -1037,6 +1114,8 @@ def clip_labels(case):
     out.append('bound_zero')
   if case['bound'].get('abs') == 'inf':
     out.append('bound_infinite')
+  if case.get('bound_kind', 'float') != 'float':
+    out.append('bound_is_an_integer:' + case['bound_kind'])
   return out
 
 
@@ -1068,6 +1147,13 @@ CHECKS = [
               'tree_add / tree_inverse_weight (as mime_lite does): same float64 '
               'oracle; the client trees, the weighted trees and the running sum '
               'handed to the pieces are neither deleted, modified nor aliased'),
+    Check(name='mean_float64', run=run_mean_x64, strategy=mean_x64_case,
+          labels=lambda c: ['clients:%d' % len(x['weights']) for x in c['cases']][:3],
+          nontrivial=lambda c, ls: True,
+          budget={'quick': 32, 'thorough': 480}, time_share=0.6,
+          doc='eight small cases per child interpreter with JAX_ENABLE_X64=1: tree_mean '
+              '(list / generator), mean_aggregator and the pieces path over float64 leaves '
+              'and non-dyadic weights against an exact rational reference at float64 accuracy'),
     Check(name='tree_sum', run=run_sum, strategy=sum_case,
           labels=sum_labels, nontrivial=sum_nontrivial,
           budget={'quick': 1400, 'thorough': 40000}, time_share=0.8,
